@@ -499,8 +499,9 @@ def run(chk, drv):
         "(sometimes of a sender); schedule = the sequence of ready handles / timers chosen; random: uniform choice at every step; "
         "exhaustive: every choice sequence (DFS, states hashed on the real objects' state + history). "
         "non-trivial = the schedule has more steps than tasks (some task was suspended and resumed); distinct by config+schedule line")
-    chk.extra["partial"] = ("liveness is proved as safety: no receiver is blocked in any quiescent state of a closed channel and a woken "
-                            "task is runnable; that the scheduler eventually runs every runnable task is asyncio's fairness, not modelled")
+    chk.extra["partial"] = ("termination is proved for the model without a fairness assumption (Props/C12Term: every schedule of enabled choices is at most "
+                            "schedBound(progs) steps long and every maximal one ends quiescent with no blocked receiver once the channel is closed); "
+                            "assumed: CPython's event loop runs some ready handle while one exists, and the asyncio model's fidelity (lock-step correspondence)")
     chk.extra["assumptions"] = [
         "asyncio.Queue / Task / Future / wait_for of CPython 3.12 behave as modelled in BpModel/Chan.lean (validated in lock-step here)",
         "receivers keep receiving until the channel is done and do not catch CancelledError; _flush_queue tasks are never cancelled",
